@@ -272,6 +272,24 @@ Definition equal_values (l r : value) (pos : nat) : res bool :=
       | Some a, Some b => Ok (String.eqb a b)
       | _, _ => Err (EExec pos)
       end
+  | VInt _ | VFlt _ =>
+      (* execNumberCompare(rleft, rright, "="): two integers as integers, otherwise both as
+         float64; its error is replaced by the ExecuteError below *)
+      match number_compare l r CEq with Ok b => Ok b | _ => Err (EExec pos) end
+  | VBool a => match r with VBool b => Ok (Bool.eqb a b) | _ => Err (EExec pos) end
+  | _ => Err (EExec pos)
+  end.
+
+(* execEqual before the repair of C14/float-equality-fails-at-execution (no float case: a
+   float operand on either side ended in the ExecuteError); kept only for the regression
+   witness in Properties/C14.v *)
+Definition equal_values_pinned (l r : value) (pos : nat) : res bool :=
+  match l with
+  | VStr _ | VBytes _ =>
+      match conv_bytes l, conv_bytes r with
+      | Some a, Some b => Ok (String.eqb a b)
+      | _, _ => Err (EExec pos)
+      end
   | VInt a => match conv_int r with Some b => Ok (Z.eqb a b) | None => Err (EExec pos) end
   | VBool a => match r with VBool b => Ok (Bool.eqb a b) | _ => Err (EExec pos) end
   | _ => Err (EExec pos)
